@@ -352,7 +352,7 @@ class Interner:
         return self.d[k]
 
 
-def run_workers(script, jobs, nproc=16, timeout=3600, env=None, threads=1):
+def run_workers(script, jobs, nproc=16, timeout=3600, env=None, threads=1, allow_crash=False):
     """Run `script` (a harness module path) over JSON job descriptions with a pool of
     single-threaded subprocesses; each worker reads jobs from a file and writes results NDJSON."""
     d = scratch_dir("pool")
@@ -383,7 +383,12 @@ def run_workers(script, jobs, nproc=16, timeout=3600, env=None, threads=1):
         lp.close()
         if p.returncode not in (0, None) and fail is None:
             with open(os.path.join(d, "log%d.txt" % i)) as f:
-                fail = "worker %d rc=%s\n%s" % (i, p.returncode, f.read()[-3000:])
+                msg = "worker %d rc=%s\n%s" % (i, p.returncode, f.read()[-3000:])
+            if allow_crash and (p.returncode < 0 or p.returncode >= 128):
+                # the interpreter was killed by a signal (memory corruption in the code under test)
+                results.append({"worker_died": p.returncode, "jobs": chunks[i], "log": msg[-1500:]})
+            else:
+                fail = msg
         if os.path.exists(rp):
             with open(rp) as f:
                 for line in f:
